@@ -342,6 +342,70 @@ func AtomCallBool(pred CallPred, want bool) Atom {
 	}
 }
 
+// MethodCmpOp maps the comparison methods of the SDK numeric types, sdk.Coin and time.Time to operators.
+func MethodCmpOp(d CalleeDesc) (token.Token, bool) {
+	switch d.Recv {
+	case "Int", "Uint", "Dec", "Coin", "Time":
+	default:
+		return token.ILLEGAL, false
+	}
+	switch d.Name {
+	case "GT", "IsGT", "After":
+		return token.GTR, true
+	case "GTE", "IsGTE":
+		return token.GEQ, true
+	case "LT", "IsLT", "Before":
+		return token.LSS, true
+	case "LTE", "IsLTE":
+		return token.LEQ, true
+	case "Equal", "IsEqual":
+		return token.EQL, true
+	}
+	return token.ILLEGAL, false
+}
+
+// AtomMethodCmp matches x.GTE(y)-style comparison calls exactly like AtomCmp matches x >= y: match is
+// offered the operator with the receiver on the left and, when it declines, the complementary operator
+// (the atom then holds on the other branch).
+func AtomMethodCmp(match func(op token.Token, x, y ssa.Value, call *ssa.Call) (holdsWhenTrue bool, ok bool)) Atom {
+	return func(c Cond) (bool, bool) {
+		if c.Op != token.ILLEGAL {
+			return false, false
+		}
+		call, _ := UnwrapCall(c.X)
+		if call == nil || len(call.Call.Args) != 2 {
+			return false, false
+		}
+		d, ok := Describe(&call.Call)
+		if !ok {
+			return false, false
+		}
+		op, ok := MethodCmpOp(d)
+		if !ok {
+			return false, false
+		}
+		x, y := call.Call.Args[0], call.Call.Args[1]
+		if pol, ok := match(op, x, y, call); ok {
+			return pol, true
+		}
+		if pol, ok := match(NegOp(op), x, y, call); ok {
+			return !pol, true
+		}
+		return false, false
+	}
+}
+
+// AtLeast decides whether "x op y" states a >= b (or a > b): it returns true when it does.
+func AtLeast(op token.Token, x, y ssa.Value, isA, isB func(ssa.Value) bool) bool {
+	switch op {
+	case token.GEQ, token.GTR:
+		return isA(x) && isB(y)
+	case token.LEQ, token.LSS:
+		return isA(y) && isB(x)
+	}
+	return false
+}
+
 // AtomCmp matches a comparison.  match receives the operator as written with
 // X on the left and decides on which truth value the atom holds.
 func AtomCmp(match func(op token.Token, x, y ssa.Value) (holdsWhenTrue bool, ok bool)) Atom {
@@ -349,8 +413,37 @@ func AtomCmp(match func(op token.Token, x, y ssa.Value) (holdsWhenTrue bool, ok 
 		if c.Op == token.ILLEGAL {
 			return false, false
 		}
-		return match(c.Op, c.X, c.Y)
+		if pol, ok := match(c.Op, c.X, c.Y); ok {
+			return pol, true
+		}
+		// the complementary form: !(x op y) == x neg(op) y, so a guard written as the negated test
+		// with the branches swapped (if x >= y { return }) establishes the same atom
+		if n := NegOp(c.Op); n != c.Op {
+			if pol, ok := match(n, c.X, c.Y); ok {
+				return !pol, true
+			}
+		}
+		return false, false
 	}
+}
+
+// NegOp is the complement of a comparison operator (!(x op y) == x NegOp(op) y) for totally ordered operands.
+func NegOp(op token.Token) token.Token {
+	switch op {
+	case token.LSS:
+		return token.GEQ
+	case token.GEQ:
+		return token.LSS
+	case token.GTR:
+		return token.LEQ
+	case token.LEQ:
+		return token.GTR
+	case token.EQL:
+		return token.NEQ
+	case token.NEQ:
+		return token.EQL
+	}
+	return op
 }
 
 // FlipOp mirrors a comparison operator (x op y  ==  y flip(op) x).
